@@ -74,10 +74,12 @@ def generator_cases(out):
                 return jaxtyped(typechecker=None)(f)
             return jaxtyped(f)
 
+        seen = []
+
         @deco
         def gen(a: Float[Duck, "n"]):
             yield 1
-            assert isinstance(Duck((5,), "float32"), Float[Duck, "n"])  # binds n in the *current* context
+            seen.append(isinstance(Duck((5,), "float32"), Float[Duck, "n"]))  # binds n in the *current* context
             yield 2
 
         @deco
@@ -103,13 +105,22 @@ def generator_cases(out):
             out.case(("generator", style), True, sample={"generator_case": style})
             if d1 != d0 or b1 != b0:
                 out.violation(f"generator:{style}:open-context", f"creating a generator/coroutine left the context changed: depth {d0}->{d1} bindings {b0}->{b1}", {"style": style})
-            next(g)
-            next(g)  # runs the isinstance inside: binds n=5 in THIS context, not n=3 of the finished call
+            try:
+                next(g)
+                next(g)  # runs the isinstance inside: binds n=5 in THIS context, not n=3 of the finished call
+                resumed = "ok"
+            except BaseException as e:  # noqa: BLE001
+                resumed = type(e).__name__
             b2 = impl.canon_bindings(impl.bindings())
             d2 = depth()
-            if d2 != d0 or b2["single"] not in ([["n", 5]],):
-                out.violation(f"generator:{style}:resume", f"resuming a generator did not run in the current context: depth {d0}->{d2} bindings {b2}", {"style": style})
-            g.close()
+            if resumed != "ok" or seen != [True] or d2 != d0 or b2["single"] not in ([["n", 5]],):
+                out.violation(f"generator:{style}:resume", f"resuming a generator created by a finished call did not run in the consumer's current context "
+                              f"(the finished call's bindings must be gone): resume={resumed}, the check of a size-5 array against 'n' inside it answered {seen}, "
+                              f"depth {d0}->{d2}, consumer's bindings afterwards {b2}", {"style": style})
+            try:
+                g.close()
+            except BaseException:  # noqa: BLE001
+                pass
             if c is not None:
                 c.close()
             try:
